@@ -921,5 +921,79 @@ def r11_line_index(a, tier):
     return rep
 
 
+_CAN_BE_EMPTY = {'strip', 'lstrip', 'rstrip', 'removeprefix', 'removesuffix', 'replace', 'join', 'splitlines', 'expandtabs', 'lower', 'upper', 'casefold', 'translate'}
+_R17_SCOPE = ('tatsu.peg', 'tatsu.contexts', 'tatsu.input', 'tatsu.boot.boot', 'tatsu.api', 'tatsu.util', 'tatsu.exceptions', 'tatsu.config', 'tatsu.parsing')
+
+
+def _const_index_sites(tree: ast.AST):
+    """(subscript node, why its base can be too short for the constant index)"""
+    for n in ast.walk(tree):
+        if not isinstance(n, ast.Subscript) or isinstance(n.slice, ast.Slice):
+            continue
+        idx = n.slice
+        if isinstance(idx, ast.UnaryOp) and isinstance(idx.op, ast.USub) and isinstance(idx.operand, ast.Constant) and isinstance(idx.operand.value, int):
+            k = -idx.operand.value
+        elif isinstance(idx, ast.Constant) and isinstance(idx.value, int) and not isinstance(idx.value, bool):
+            k = idx.value
+        else:
+            continue
+        b = n.value
+        if isinstance(b, ast.Subscript) and isinstance(b.slice, ast.Slice):
+            yield n, k, 'a slice, which is empty when its bounds lie outside the sequence'
+        elif isinstance(b, ast.Call) and isinstance(b.func, ast.Attribute):
+            m = b.func.attr
+            if m in _CAN_BE_EMPTY and (m != 'join' or True):
+                yield n, k, f'the result of .{m}(), which is empty for some operands'
+            elif m in ('split', 'rsplit'):
+                if not b.args and not b.keywords:
+                    yield n, k, f'the result of .{m}() without separator, which is [] for a blank string'
+                elif k not in (0, -1):
+                    yield n, k, f'the result of .{m}(sep), which has a single element when the separator does not occur'
+
+
+def r17_constant_index(a, tier):
+    from ..rules.common import dominating_conditions
+    rep = RuleReport(
+        'C08.R17',
+        'no text or grammar makes the compile / parse path index an empty value: in the modules that path runs through (tatsu/peg, contexts, '
+        'input, api, util, boot/boot.py, exceptions, config) a subscript by a CONSTANT index whose operand is the result of an operation that '
+        'can come back empty or shorter - strip / lstrip / rstrip / removeprefix / replace / join ..., a slice, split() without separator, or '
+        'split(sep)[k] with k not in {0, -1} - lies under a test that mentions the operand\'s variable (an enclosing `if` / early exit / `and` / '
+        'conditional expression). `name.lstrip("_")[0]` on a rule named `_` is an IndexError out of tatsu.compile(); `[:1]` is the total form',
+        floor=1,
+    )
+    n_sites = 0
+    for mod in a.p.modules.values():
+        if not mod.name.startswith(_R17_SCOPE):
+            continue
+        for f in [f for f in a.p.functions.values() if f.module is mod and f.parent is None]:
+            pm = None
+            for n, k, why in _const_index_sites(f.node):
+                if pm is None:
+                    pm = a.resolver.parents(f)
+                n_sites += 1
+                roots = {x.id for x in ast.walk(n.value) if isinstance(x, ast.Name)} | {norm(x) for x in ast.walk(n.value) if isinstance(x, ast.Attribute)}
+                conds = list(dominating_conditions(f, pm, n))
+                cur = n
+                while id(cur) in pm and not isinstance(pm[id(cur)], ast.stmt):
+                    par = pm[id(cur)]
+                    if isinstance(par, ast.BoolOp) and isinstance(par.op, ast.And):
+                        conds += [v for v in par.values[:[id(v) for v in par.values].index(id(cur))]] if any(v is cur for v in par.values) else []
+                    if isinstance(par, ast.IfExp) and par.body is cur:
+                        conds.append(par.test)
+                    cur = par
+                guarded = any(({x.id for x in ast.walk(c) if isinstance(x, ast.Name)} | {norm(x) for x in ast.walk(c) if isinstance(x, ast.Attribute)}) & roots for c in conds)
+                rep.add({'function': f.qualname, 'indexing': norm(n)[:80], 'operand': why, 'guards': [norm(c)[:60] for c in conds][:4], 'guarded': guarded})
+                if not guarded:
+                    rep.fail(f.qualname, f'constant-index:{norm(n)[:60]}', f'`{norm(n)[:80]}` indexes {why}, under no test of that operand: for some grammar or text this is an '
+                             f'IndexError, which is not one of TatSu\'s exception types', f'{mod.relpath}:{n.lineno}')
+    probe = ast.parse("def f(name):\n    return name.lstrip('_')[0].isupper(), name[1:][0], name.split()[0], name.split(',')[1], name.split(',')[0]\n")
+    hits = [k for _, k, _ in _const_index_sites(probe)]
+    rep.add({'detector_self_check': len(hits)})
+    if len(hits) != 4:
+        raise AnalysisError('C08.R17: the detector no longer recognises its positive examples')
+    return rep
+
+
 RULES = [r1_one_factory, r2_sentinels, r3_cache_guards, r4_check_before_use, r5_progress, r6_scanner_bounds, r7_operand_coverage,
-         r8_eat_loops_terminate, r9_converters_guarded, r10_message_renders, r11_line_index, r12_include_cycles, r13_input_converters, r14_pattern_literals, r15_constant_terminates, r16_messages_total]
+         r8_eat_loops_terminate, r9_converters_guarded, r10_message_renders, r11_line_index, r12_include_cycles, r13_input_converters, r14_pattern_literals, r15_constant_terminates, r16_messages_total, r17_constant_index]
